@@ -183,5 +183,150 @@ Proof.
     - destruct (release_tail2 s1 xt xe k r l1 d (l_cmd l) (Some c) G1 Hr1 Hkey Hd Hpos) as [GT _].
       destruct (if l_isaof (getl s1 r) then push_unlock_aof s1 k r (l_cmd l) (Some c) false 0 else (s1, [])) as [s3 aev].
       cbn [fst] in *. apply Hfin. exact GT. }
-  cbv zeta in Hmain.
-destruct (has_udata_flag c); rewrite ?(process_data_core _ _ _ _ _ Hc); cbv iota beta; rewrite (getl_some _ _ _ Hr1). Show. 
+  cbv zeta in Hmain. rewrite (getl_some _ _ _ Hr1) in Hmain.
+  destruct (has_udata_flag c); rewrite ?(process_data_core _ _ _ _ _ Hc); cbv iota beta; rewrite (getl_some _ _ _ Hr1);
+    destruct (if l_long l1 then _ else _) as [s4 aev4]; exact Hmain.
+Qed.
+
+(* ---------------------------------------------------------------- LockDB.UnLock *)
+Lemma ul_err_ok xt xe conn k m s c code lrc : GInv s (gk xt xe k) -> res_ok xt xe k (ul_err conn k m s c code lrc).
+Proof.
+  intros G. unfold ul_err. split; [|intros w H; discriminate]. cbn [fst].
+  eapply ginv_geq; [eapply updc_ginv with (cl' := 0%Z) (cw' := 0%Z); [exact G|..]; unfold gk; gs; cbn; lia|reflexivity].
+Qed.
+
+Lemma ul_body_ok s xt xe conn c k r l m :
+  GInv s (gk xt xe k) -> aget (mgrs s) k = Some m -> aget (store s) r = Some l -> l_key l = k -> 0 < l_locked l ->
+  l_timeouted l = true -> occ r (holders m) = 1%nat -> c_data c = None ->
+  res_ok xt xe k (ul_body s conn c k r).
+Proof.
+  intros G Hm Hr Hkey Hd Ht Hh Hc. set (g := gk xt xe k) in *.
+  destruct (gi_rec _ _ G r l Hr) as [A1 A2 A3 A4 A5 A6 A7 A8 A9 A10 A11].
+  destruct (gi_mgr _ _ G k m Hm) as [B1 B2 B3 B4 B5 B6 B7 B8 B9 Bb B10 Bc].
+  assert (Hin : In r (holders m)) by (apply occ_In; lia).
+  assert (Hsum : l_locked l <= m_locked m).
+  { pose proof (sumdepth_ge s r (holders m) Hin) as S. rewrite (getl_some _ _ _ Hr) in S.
+    unfold dlk, g, gk in B6. gs. destruct (k =? k) in B6; lia. }
+  destruct Bb as [_ Bl].
+  (* full release: locked -= depth, then release_hold *)
+  assert (Hfull : forall d, d = l_locked l ->
+     res_ok xt xe k (let s0 := updm s k (fun m => m <| m_locked := sub32 (m_locked m) d |>) in
+                     let '(s1, ev) := release_hold s0 k conn c r d in (s1, ev, Some (mkWake k (Some conn))))).
+  { intros d Ed. cbv zeta. rewrite (updm_some _ _ _ _ Hm).
+    set (m1 := m <| m_locked := sub32 (m_locked m) d |>).
+    assert (Hl1 : m_locked m1 = m_locked m - d) by (unfold m1; cbn; apply sub32_sub; lia).
+    assert (G1 : GInv (setm s k m1) (gkd xt xe k (Z.of_N d) (- Z.of_N d) 0)).
+    { eapply ginv_geq; [apply (setm_scalar s g k m m1 G Hm); try (destruct m; reflexivity); [lia|right; reflexivity]|].
+      rewrite Hl1. unfold g, gk, gkd. gs.
+      match goal with |- _ = ?g0 <| g_dl := ?e1 |> <| g_cl := ?e2 |> =>
+        replace e1 with (Z.of_N d) by lia; replace e2 with (- Z.of_N d)%Z by lia end. reflexivity. }
+    assert (Hm1 : aget (mgrs (setm s k m1)) k = Some m1) by (rewrite mgrs_setm, aget_aset_same; auto).
+    assert (Hh1 : occ r (holders m1) = 1%nat) by (destruct m; exact Hh).
+    pose proof (release_hold_ginv (setm s k m1) xt xe k conn c r l d m1 G1 Hr Hkey (eq_sym Ed)) as GR.
+    destruct (release_hold (setm s k m1) k conn c r d) as [s2 ev]. cbn [fst] in GR.
+    split; [apply GR; auto; lia|intros w H; inversion H; reflexivity]. }
+  unfold ul_body. cbv zeta. rewrite (getl_some _ _ _ Hr).
+  destruct (1 <? l_locked l) eqn:E1.
+  - destruct ((0 <? c_rcount c) && negb (has (c_tflag c) TF_PRIORITY)).
+    + (* one level *)
+      apply N.ltb_lt in E1.
+      rewrite (updl_some _ _ _ _ Hr).
+      set (l1 := l <| l_locked := dec8 (l_locked l) |>).
+      assert (Hd1 : l_locked l1 = l_locked l - 1) by (unfold l1; cbn; apply dec8_pred; lia).
+      assert (G1 : GInv (setl s r l1) (g <| g_dl := (-1)%Z |>)).
+      { eapply ginv_geq; [apply (setl_depth s g r l l1 G Hr); unfold g, gk; gs; auto; try lia;
+                            try (intros; rewrite Hkey, (getm_some _ _ _ Hm); exact Hh); try (simpl; tauto)|].
+        rewrite Hkey, (getm_some _ _ _ Hm), Hh, Hd1. unfold g, gk. gs.
+          match goal with |- _ = ?g0 <| g_dl := ?e1 |> => replace e1 with (-1)%Z by lia end. reflexivity. }
+      set (s1 := setl s r l1) in *.
+      assert (Hm1 : aget (mgrs s1) k = Some m) by exact Hm.
+      rewrite (updm_some _ _ _ _ Hm1).
+      set (m1 := m <| m_locked := sub32 (m_locked m) 1 |>).
+      assert (Hl1 : m_locked m1 = m_locked m - 1) by (unfold m1; cbn; apply sub32_sub; lia).
+      assert (G2 : GInv (setm s1 k m1) (gkc xt xe k (-1) 0)).
+      { eapply ginv_geq; [apply (setm_scalar s1 _ k m m1 G1 Hm1); try (destruct m; reflexivity); [lia|right; reflexivity]|].
+        rewrite Hl1. unfold g, gk, gkc. gs.
+        match goal with |- _ = ?g0 <| g_dl := ?e1 |> <| g_cl := ?e2 |> => replace e1 with 0%Z by lia; replace e2 with (-1)%Z by lia end. reflexivity. }
+      set (s2 := setm s1 k m1) in *.
+      assert (Hfin : forall s3, GInv s3 (gkc xt xe k (-1) 0) ->
+                GInv (bump (fun n => n <| n_unlock := (n_unlock n + 1)%Z |> <| n_locked := (n_locked n - 1)%Z |>) s3) (gk xt xe k)).
+      { intros s3 G3. eapply ginv_geq; [eapply updc_ginv with (cl' := 0%Z) (cw' := 0%Z); [exact G3|..]; unfold gkc; gs; cbn; lia|reflexivity]. }
+      destruct (has_udata_flag c); rewrite ?(process_data_core _ _ _ _ _ Hc); cbv iota beta;
+        (destruct (l_isaof (getl s2 r));
+         [destruct (push_unlock_aof_ok s2 _ k r (l_cmd (getl s2 r)) (Some c) true AOF_FLAG_UPDATED G2) as [G3 _];
+          destruct (push_unlock_aof s2 k r (l_cmd (getl s2 r)) (Some c) true AOF_FLAG_UPDATED) as [s3 aev]; cbn [fst] in G3|]);
+        (split; [cbn [fst]; apply Hfin; auto|intros w H; inversion H; reflexivity]).
+    + apply (Hfull (l_locked l) eq_refl).
+  - apply N.ltb_ge in E1. assert (E : 1 = l_locked l) by lia. apply (Hfull 1 E).
+Qed.
+
+Lemma unlock_step_ginv s xt xe conn c :
+  GInv s (gk xt xe (c_key c)) -> c_data c = None -> res_ok xt xe (c_key c) (unlock_step s conn c).
+Proof.
+  intros G Hc. rewrite unlock_step_eq. cbv zeta. set (k := c_key c) in *.
+  destruct (aget (mgrs s) k) as [m|] eqn:Hm.
+  2:{ split; [|intros w H; discriminate]. cbn [fst].
+      eapply ginv_geq; [eapply updc_ginv with (cl' := 0%Z) (cw' := 0%Z); [exact G|..]; unfold gk; gs; cbn; lia|reflexivity]. }
+  destruct (negb (leader s) && negb (has (c_flag c) UNLOCK_FLAG_FROM_AOF)); [apply ul_err_ok; auto|].
+  destruct (m_locked m =? 0).
+  { destruct (has (c_flag c) UNLOCK_FLAG_CANCEL_WAIT); [apply cancel_wait_lock_ginv; auto|apply ul_err_ok; auto]. }
+  unfold ul_target. cbv zeta.
+  destruct (get_locked_lock s m (c_lockid c)) as [r|] eqn:Eg.
+  - destruct (get_locked_lock_spec s xt xe k m _ r G Hm Eg) as [l [Hr [Hkey [Hd [Hid [Ht Hh]]]]]].
+    destruct (negb (l_ack (getl s r) =? 255)); [apply ul_err_ok; auto|].
+    apply (ul_body_ok s xt xe conn c k r l m); auto.
+  - destruct (has (c_flag c) UNLOCK_FLAG_FIRST).
+    + destruct (m_cur m) as [cr|] eqn:Ec; [|apply ul_err_ok; auto].
+      destruct (negb (l_ack (getl s cr) =? 255)); [apply ul_err_ok; auto|].
+      assert (Hlkk : lkk (gk xt xe k) k = false) by (unfold lkk, gk; gs; apply andb_false_r).
+      pose proof (mo_cur _ _ _ _ (gi_mgr _ _ G k m Hm) Hlkk cr Ec) as Hl.
+      assert (Hin : In cr (holders m)) by (unfold holders, cur_list; rewrite Ec; simpl; auto).
+      destruct (holder_facts s _ k m cr G eq_refl eq_refl eq_refl Hm Hin Hl) as [l [Hr [Hkey [Ht Hh]]]].
+      rewrite (getl_some _ _ _ Hr) in Hl.
+      apply (ul_body_ok s xt xe conn _ k cr l m); auto.
+    + destruct (has (c_flag c) UNLOCK_FLAG_CANCEL_WAIT); [apply cancel_wait_lock_ginv; auto|apply ul_err_ok; auto].
+Qed.
+
+(* ---------------------------------------------------------------- doTimeOut / doExpried *)
+Lemma unref_t_tail s xe k k' r rest :
+  GInv s (gk (r :: rest) xe k) ->
+  GInv (let s1 := unref s r in
+        if match aget (store s1) r with None => true | Some _ => false end then remove_mgr_if_unref s1 k' else s1)
+       (gk rest xe k).
+Proof.
+  intros G. destruct (stored_of_xt s _ r rest G eq_refl) as [l Hr].
+  assert (G1 : GInv (unref s r) (gk rest xe k)).
+  { eapply ginv_geq; [apply (unref_xt s _ r rest l G); auto|reflexivity]. }
+  cbv zeta. destruct (aget (store (unref s r)) r); auto. apply remove_mgr_ginv; auto.
+Qed.
+Lemma unref_e_tail s xt k k' r rest :
+  GInv s (gk xt (r :: rest) k) ->
+  GInv (let s1 := unref s r in
+        if match aget (store s1) r with None => true | Some _ => false end then remove_mgr_if_unref s1 k' else s1)
+       (gk xt rest k).
+Proof.
+  intros G. destruct (stored_of_xe s _ r rest G eq_refl) as [l Hr].
+  assert (G1 : GInv (unref s r) (gk xt rest k)).
+  { eapply ginv_geq; [apply (unref_xe s _ r rest l G); auto|reflexivity]. }
+  cbv zeta. destruct (aget (store (unref s r)) r); auto. apply remove_mgr_ginv; auto.
+Qed.
+
+Lemma do_timeout_ginv s xe k0 r rest :
+  GInv s (gk (r :: rest) xe k0) ->
+  exists k, res_ok rest xe k (do_timeout s r).
+Proof.
+  intros G0. destruct (stored_of_xt s _ r rest G0 eq_refl) as [l Hr].
+  unfold do_timeout. rewrite Hr. set (k := l_key l). exists k.
+  pose proof (gk_rekey s (r :: rest) xe k0 k G0) as G.
+  destruct (l_timeouted l) eqn:Et.
+  - split; [|intros w H; discriminate]. cbn [fst]. apply (unref_t_tail s xe k k r rest G).
+  - destruct (gi_rec _ _ G r l Hr) as [A1 A2 A3 A4 A5 A6 A7 A8 A9 A10 A11].
+    destruct (A6 Et) as [Q1 [Q2 [Q3 Q4]]].
+    cbv zeta. rewrite Q3. change (0 <? 0) with false. cbv iota.
+    assert (Hlong : l_long l = false).
+    { destruct (l_long l) eqn:El; auto. exfalso. destruct (A8 eq_refl eq_refl) as [Q _]. specialize (Q Et).
+      pose proof (occ_wheel_get_le r (tlong s) (lkey (l_tT l))). unfold tcount, gk in A4. gs. rewrite occ_cons_eq in A4. lia. }
+    rewrite (updl_some _ _ _ _ Hr).
+    set (l1 := l <| l_timeouted := true |>).
+    assert (G1 : GInv (setl s r l1) (gk (r :: rest) xe k <| g_cw := (-1)%Z |>)).
+{ eapply ginv_geq; [apply (setl_flags s _ r l l1 G Hr); auto; unfold gk; gs|]. Show. 
